@@ -165,6 +165,31 @@ def explore(ctx):
             failures.append({'kind': 'spec', 'what': 'a row the parser rejects changed the output for the other rows', 'payload': {'query': q, 'input_lines': lines[:pos] + [bad] + lines[pos:]}})
         elif b'error:' not in b['err']:
             failures.append({'kind': 'spec', 'what': 'a rejected row before any aggregation was skipped without an error: line on stderr', 'payload': {'query': q, 'bad_line': bad}})
+    # "before any aggregation" includes behind a mere `sort`: a row operator written after a sort that fails on some rows
+    # drops exactly those rows and writes one error: line for each (and stays silent behind a real aggregation)
+    for i in range(10 if quick else 150):
+        n = rng.randint(2, 9)
+        has = [rng.random() < 0.6 for _ in range(n)]
+        lines = [json.dumps({'id': j, 'x': rng.randint(0, 5), **({'z': j} if h else {})}) + '\n' for j, h in enumerate(has)]
+        tail = rng.choice(['z + 1 as w', 'where z >= 0', 'z * 2 as w | w + 1 as v'])
+        q = '* | json | sort by %s | %s | fields id' % (rng.choice(['x', 'id', 'x, id', 'id desc']), tail)
+        o = aglib.run_impl_one(q, ''.join(lines).encode('utf8'), 'json')
+        iso += 1
+        nerr = o['err'].decode('utf8', 'replace').count('error:')
+        try:
+            ids = sorted(r['id'] for l in o['out'].decode('utf8').split('\n') if l.strip() for r in (json.loads(l) if l.lstrip().startswith('[') else [json.loads(l)]))
+        except (ValueError, KeyError, TypeError):
+            ids = None
+        want_ids = [j for j, h in enumerate(has) if h]
+        if o['rc'] != 0 or ids != want_ids:
+            failures.append({'kind': 'spec', 'what': 'a row operator after a sort failing on some rows changed the others: rows %r, expected %r' % (ids, want_ids), 'payload': {'query': q, 'input_lines': lines}})
+        elif nerr != has.count(False):
+            failures.append({'kind': 'spec', 'what': '%d rows were dropped by an operator after a mere sort (no aggregation anywhere) with %d error: lines on stderr' % (has.count(False), nerr),
+                             'payload': {'query': q, 'input_lines': lines, 'stderr': o['err'].decode('utf8', 'replace')[-300:]}})
+        qa = '* | json | count by id, z | %s | fields id' % tail
+        oa = aglib.run_impl_one(qa, ''.join(lines).encode('utf8'), 'json')
+        if oa['rc'] != 0 or b'panicked' in oa['err']:
+            failures.append({'kind': 'spec', 'what': 'a failing row operator after an aggregation: rc=%s' % oa['rc'], 'payload': {'query': qa, 'input_lines': lines}})
     # the same after an aggregation: an aggregate row on which a later row operator fails is skipped, every other
     # aggregate row comes through (reference: each group run alone through the same query, results put together)
     for i in range(12 if quick else 200):
